@@ -533,6 +533,8 @@ def m_runloop(ctx, case):
     except Stop:
         pass
     except BaseException as e:  # noqa
+        if type(e).__name__ == "CaseTimeout":
+            raise
         ctx.violation("decode-run-raises", error="%s: %s" % (type(e).__name__, str(e)[:100]))
         return
     ctx.ev(len(seen))
